@@ -146,7 +146,8 @@ Inductive appn := ApStopped | ApRunning | ApUnmanaged | ApUnknown.
 Inductive procn := PrKnown | PrUnknown | PrStar | PrNone | PrInt.
 (* identifier, nick identifier, stereotype of one instance, unknown, empty string, identifier of a STOPPED instance,
    stereotype shared by the peer and the STOPPED instance *)
-Inductive instn := InIdent | InNick | InStereo | InUnknown | InEmpty | InStopped | InMulti.
+(* InStopped: a known instance that is STOPPED; InChecked: a known instance that is active but not RUNNING (CHECKED) *)
+Inductive instn := InIdent | InNick | InStereo | InUnknown | InEmpty | InStopped | InMulti | InChecked.
 Inductive progn := PgKnown | PgUnknown.
 Inductive numn := NumOk | NumZero | NumStr.
 Inductive lvln := LvOk | LvOkInt | LvBad | LvBadInt.
@@ -279,7 +280,7 @@ Definition resolve_ns (a : appn) (p : procn) : ns_res :=
 
 (* mapper.filter([identifier]) is not empty *)
 Definition inst_resolves (i : instn) : bool :=
-  match i with InIdent | InNick | InStereo | InStopped | InMulti => true | InUnknown | InEmpty => false end.
+  match i with InIdent | InNick | InStereo | InStopped | InMulti | InChecked => true | InUnknown | InEmpty => false end.
 (* mapper.filter([identifier]) has more than one element *)
 Definition inst_is_multiple (i : instn) : bool := match i with InMulti => true | _ => false end.
 
@@ -345,7 +346,7 @@ Definition body (v : node_view) (r : request) : result :=
       with_instance v (rq_inst r)
         (with_namespec v (rq_app r) (rq_proc r) (fun res =>
            match res, rq_inst r with
-           | NsProc, InStopped => reject v F_FAILED     (* no information from that instance: KeyError -> FAILED *)
+           | NsProc, InStopped | NsProc, InChecked => reject v F_FAILED  (* no information from that instance: KeyError -> FAILED *)
            | NsProc, InMulti => reject v F_FAILED       (* one of the two instances is the STOPPED one *)
            | _, _ => serve v []
            end))
@@ -428,7 +429,7 @@ Definition body (v : node_view) (r : request) : result :=
           else match rq_inst r with
                | InUnknown => reject v F_BAD_NAME
                | InMulti => reject v F_INCORRECT_PARAMETERS       (* several identifiers for one Master *)
-               | InStopped => reject v F_NOT_RUNNING
+               | InStopped | InChecked => reject v F_NOT_RUNNING      (* the Master must be RUNNING *)
                (* '' : election among the RUNNING instances, the local one has the lowest nick identifier;
                   the stereotype resolves to the local instance; identifier / nick designate the peer.
                   The FSM is re-evaluated at once: SYNCHRONIZATION -> ELECTION (jobs aborted, state published). *)
